@@ -9,6 +9,7 @@ package main
 import (
 	"encoding/hex"
 	"errors"
+	"flag"
 	"fmt"
 	"os"
 	"regexp"
@@ -28,6 +29,7 @@ type chk struct {
 	k     int
 	abort bool
 	when  int // -1 = none
+	api   int // refinements on non-string schemas: 0 = Refine, 1 = RefineAny
 }
 
 type pipe struct {
@@ -38,6 +40,8 @@ type pipe struct {
 	k    int
 	a, b *pipe
 	ptr  bool // base built with StringPtr()
+	vk   string  // universal domain: value kind of a base (s, i, l, o); "" on the string-only lines
+	rng  *hx.Rng // universal domain: which alias of a built-in is called (Min/Gte)
 }
 
 func hexs(s string) string {
@@ -223,6 +227,8 @@ func buildBaseVal(p *pipe, l *logger) core.ZodType[string] {
 				}
 			}
 			s = s.Refine(func(v string) bool { l.add("c", p.tag, pos, v); return customPred(c.k, v) }, cp)
+		case "chk":
+			s = s.Check(func(v string, pl *core.ParsePayload) { pushIssues(p, pos, c, l, v, pl) }, customParams(p, pos, c, l, false))
 		}
 	}
 	return s
@@ -287,6 +293,8 @@ func buildBasePtr(p *pipe, l *logger) core.ZodType[*string] {
 				}
 			}
 			s = s.Refine(func(v *string) bool { l.add("c", p.tag, pos, v); return customPred(c.k, deref(v)) }, cp)
+		case "chk":
+			s = s.Check(func(v *string, pl *core.ParsePayload) { pushIssues(p, pos, c, l, v, pl) }, customParams(p, pos, c, l, false))
 		}
 	}
 	return s
@@ -339,33 +347,36 @@ func observe(p *pipe, input any) string {
 			head = "ok " + anyHex(res)
 			return
 		}
-		var ze *gozod.ZodError
-		if !errors.As(err, &ze) {
-			head = "err ?notzod:" + err.Error()
-			return
-		}
-		tag := -1
-		var ps []string
-		for _, is := range ze.Issues {
-			mm := msgRe.FindStringSubmatch(is.Message)
-			if mm == nil {
-				ps = append(ps, "?"+strings.ReplaceAll(is.Message, " ", "_"))
-				continue
-			}
-			t, _ := strconv.Atoi(mm[1])
-			if tag == -1 {
-				tag = t
-			} else if tag != t {
-				ps = append(ps, "?tag"+mm[1])
-			}
-			ps = append(ps, mm[2])
-		}
-		head = fmt.Sprintf("err %d:%s", tag, strings.Join(ps, ","))
+		head = errHead(err)
 	})
 	if pm != "" {
 		return "panic " + strings.ReplaceAll(pm, "\n", " ")
 	}
 	return head + ";" + strings.Join(l.evs, ",")
+}
+
+func errHead(err error) string {
+	var ze *gozod.ZodError
+	if !errors.As(err, &ze) {
+		return "err ?notzod:" + strings.ReplaceAll(err.Error(), " ", "_")
+	}
+	tag := -1
+	var ps []string
+	for _, is := range ze.Issues {
+		mm := msgRe.FindStringSubmatch(is.Message)
+		if mm == nil {
+			ps = append(ps, "?"+strings.ReplaceAll(is.Message, " ", "_"))
+			continue
+		}
+		t, _ := strconv.Atoi(mm[1])
+		if tag == -1 {
+			tag = t
+		} else if tag != t {
+			ps = append(ps, "?tag"+mm[1])
+		}
+		ps = append(ps, mm[2])
+	}
+	return fmt.Sprintf("err %d:%s", tag, strings.Join(ps, ","))
 }
 
 // ---- generation ----
@@ -470,6 +481,7 @@ func genPipe(r *hx.Rng, depth int, in string, st *genState, maxChecks int) *pipe
 }
 
 func main() {
+	repoRoot := flag.String("repo", "/repo", "library source tree (for the go/ast fingerprint of the engine loop)")
 	c := hx.ParseFlags()
 	o, err := hx.NewOut(c.OutDir)
 	if err != nil {
@@ -509,6 +521,12 @@ func main() {
 		o.Count("outcome:" + strings.SplitN(obs, " ", 2)[0])
 		o.Count("checks:" + strconv.Itoa(len(firstBase(p).cs)))
 	}
+	nu := 40000
+	if c.Thorough() {
+		nu = 1000000
+	}
+	runUniversal(o, r, nu)
+	emitShapes(o, *repoRoot)
 	if err := o.Close(map[string]any{"seed": c.Seed, "tier": c.Tier}); err != nil {
 		fmt.Fprintln(os.Stderr, err)
 		os.Exit(3)
